@@ -266,8 +266,8 @@ varintAdaptiveSelectEncoding(const varintAdaptiveDataStats *stats) {
      * Only use if all values are unique or nearly unique
      * AND data is already sorted (since BITMAP returns values in sorted order)
      */
-    if (stats->fitsInBitmapRange && stats->uniqueRatio > 0.9f &&
-        (stats->isSorted || stats->isReverseSorted)) {
+    if (stats->fitsInBitmapRange && stats->uniqueCount == stats->count &&
+        stats->isSorted) {
         /* All or nearly all values are unique - bitmap might work */
         if (stats->range > 0 && stats->count < 10000) {
             float density = (float)stats->count / (float)stats->range;
